@@ -25,6 +25,8 @@ CATALOG: dict[str, dict] = {
     "SvScaleInPlace": dict(kind="op", i="float", o="float", params={"scale": 3.0}),
     "SvToStream": dict(kind="op", i="float", o="stream", params={"step": 0.5}),
     "SvStreamSum": dict(kind="op", i="stream", o="float", params={}),
+    "SvCtxWriterOpaque": dict(kind="op", i="float", o="float", params={}, creates=["opq"]),
+    "SvWrongOutput": dict(kind="op", i="float", o="wrong", params={}),
     "SvCtxWriterA": dict(kind="op", i="float", o="float", params={"scale": 1.0}, creates=["wa"]),
     "SvCtxWriterB": dict(kind="op", i="float", o="float", params={}, creates=["wb"]),
     "SvToText": dict(kind="op", i="float", o="text", params={}),
@@ -54,6 +56,7 @@ class _G:
         self.allow_nonfinite = allow_nonfinite
         self.allow_stream = allow_stream
         self.allow_falsy = True
+        self.stop = False
         self.rng = rng
         self.nodes: list[dict] = []
         self.truth: list[dict] = []
@@ -287,6 +290,10 @@ class _G:
         if d == "stream":
             self._plain("SvStreamSum")
             return
+        if d == "wrong":
+            if not (self.allow_ctx and self.add_ctx_node()):
+                self.stop = True          # only context-only nodes may follow a node whose output contradicts its declaration
+            return
         if d == "coll":
             r = rng.random()
             if self.allow_slicer and r < 0.35:
@@ -323,6 +330,10 @@ class _G:
             self._plain("SvToText")
         elif r < 0.84 and self.allow_stream:
             self._plain("SvToStream")
+        elif r < 0.86 and self.allow_stream:
+            self._plain("SvCtxWriterOpaque")
+        elif r < 0.875 and self.allow_stream:
+            self._plain("SvWrongOutput")
         elif self.allow_sweep and r < 0.95:
             self.add_sweep(rng.choice(["SvMul", "SvAffine", "SvAdd", "SvProbeParam", "SvProbeDefault"]))
         else:
@@ -343,9 +354,13 @@ def gen_pipeline(rng: random.Random, **opts) -> dict:
         n = rng.randint(1, g.max_nodes)
         g.add_source()
         guard = 0
-        while len(g.nodes) < n and guard < 40:
+        while len(g.nodes) < n and guard < 40 and not g.stop:
             guard += 1
             g.add_node()
+        if opts.get("allow_nonfinite", True) and rng.random() < 0.06:
+            g.ctx0["nan_key"] = float("nan")       # an untouched NaN in the context (NaN != NaN)
+        if rng.random() < 0.05:
+            g.ctx0["int_key"] = rng.randint(1, 9)  # an int next to all the floats
         if not g.nodes:
             continue
         sc = {"nodes": g.nodes, "context": g.ctx0, "init_data": g.init_data}
@@ -444,7 +459,7 @@ def recompute_truth(sc: dict) -> list[dict] | None:
 
 
 # ---------------------------------------------------------------- failure mutations
-FAIL_KINDS_CONFIG = ["unresolvable", "unresolvable_two_keys", "type_gate", "undeclared_op", "undeclared_ctx", "unknown_param", "probe_no_key"]
+FAIL_KINDS_CONFIG = ["unresolvable", "unresolvable_two_keys", "write_then_fail", "type_gate", "undeclared_op", "undeclared_ctx", "unknown_param", "probe_no_key"]
 FAIL_KINDS_FAULT = ["leaf_exception", "exec_pre_exception", "exec_post_exception", "abort", "kbint",
                     "leaf_bare_keyerror", "leaf_keyerror_subclass", "exec_nonstr_args", "transport_fault"]
 
@@ -472,6 +487,7 @@ def applicable_failures(sc: dict) -> list[tuple[str, int]]:
     for k in range(n + 1):
         dt = truth[k - 1]["out"] if k > 0 else ("float" if sc.get("init_data") is not None else "none")
         if dt == "float":
+            out.append(("write_then_fail", k))
             out.append(("type_gate", k))
             out.append(("undeclared_op", k))
             live = set(truth[k]["live_before"]) if k < n else (set(truth[-1]["live_before"]) | set(truth[-1]["creates"])) - set(truth[-1]["removes"])
@@ -525,6 +541,10 @@ def apply_failure(sc: dict, kind: str, k: int) -> dict:
     elif kind == "type_gate":
         s["nodes"].insert(k, {"processor": "SvTextLen"})
         s["fail"]["expect_exc"] = "TypeError"
+        s["fail"]["expect_sers"] = k + 1
+    elif kind == "write_then_fail":
+        s["nodes"].insert(k, {"processor": "SvWriteThenFail"})      # the node changes the context and then raises
+        s["fail"]["expect_exc"] = "SimFault"
         s["fail"]["expect_sers"] = k + 1
     elif kind == "unresolvable_two_keys":
         s["nodes"].insert(k, {"processor": "SvCaseOp"})       # needs Gain and gain, neither is available: two missing keys
